@@ -213,17 +213,20 @@ fn oracle(toks: &[&str]) -> String {
             }
         },
         "rec" => {
-            let rl = [16usize,64,127,128,200,255,256,512,2,10,30,32767,32768,65535][rng.below(14)];
+            let rl = [16usize,64,127,128,200,255,256,512,2,10,30,32767,32768,65535,257,300,600,700,1100][rng.below(19)];
             let mut recs = Records::new(rl);
             let n = 1 + rng.below(12);
             let mut want: Vec<(usize,String)> = Vec::new();
             let mut used = std::collections::HashSet::new();
             let mut too_long = false;
-            for _ in 0..n {
-                let idx = [0usize,1,2,3,7,rng.below(40),rng.below(300),50,2489,2493][rng.below(10)];
+            // records longer than a chunk that do not end on a chunk boundary: neighbours, each nearly full, so that every record runs on
+            // into the chunk where the next one starts
+            let neighbours = matches!(rl,257|300|600|700|1100) && rng.below(3)>0;
+            for k in 0..n {
+                let idx = if neighbours { k } else { [0usize,1,2,3,7,rng.below(40),rng.below(300),50,2489,2493][rng.below(10)] };
                 if !used.insert(idx) { continue; }
                 // the stored record is the text plus one line end: lengths below, at and beyond what fits
-                let flen = match rng.below(10) { 0 => rl-1, 1 => rl, 2 => rl+1, 3 => 2*rl, _ => 1 + rng.below(rl.max(3)-2) }.min(70000).max(1);
+                let flen = if neighbours { rl-2-(k%3) } else { match rng.below(10) { 0 => rl-1, 1 => rl, 2 => rl+1, 3 => 2*rl, _ => 1 + rng.below(rl.max(3)-2) }.min(70000).max(1) };
                 if flen+1 > rl { too_long = true; }
                 let mut s = String::new();
                 for _ in 0..flen { s.push((0x21 + rng.below(0x5d) as u8) as char); }
